@@ -147,3 +147,101 @@ async def walk_async(api, op, base_text, maxrep=None, honest=False, mib=None, li
             break
     api.ctx.walk = False
     return out
+
+
+# ---------------------------------------------------------------------------------------------------------------
+# several walks in one process: abandoned, nested, interleaved (each walk is judged as its own trace session)
+
+class _Walker:
+    def __init__(self, api, sid, op, base, maxrep, mib, fetch=False):
+        self.api, self.sid, self.op, self.base, self.maxrep, self.mib, self.fetch = api, sid, op, base, maxrep, mib, fetch
+        self.it = None
+        self.done = False
+        self.n = 0
+
+    def _begin(self):
+        apidrv.use_sid(self.api, self.sid)
+        _start(self.api, self.op, self.base, self.maxrep, True, self.mib)
+        s = self.api.session
+        return s.fetch(self.base) if self.fetch else (s.getnext(self.base) if self.op == "getnext" else s.getbulk(self.base, self.maxrep))
+
+    def _resume(self):
+        apidrv.use_sid(self.api, self.sid)
+        self.api.ctx.op, self.api.ctx.walk, self.api.ctx.maxrep, self.api.ctx.oids = self.op, True, self.maxrep or 0, [self.base]
+
+    def step(self):
+        """one next(); False when the walk is over"""
+        if self.done:
+            return False
+        try:
+            if self.it is None:
+                self.it = iter(self._begin())
+            else:
+                self._resume()
+            pair = next(self.it)
+        except BaseException as e:  # noqa
+            apidrv.use_sid(self.api, self.sid)
+            _end(self.api, e)
+            self.done = True
+            return False
+        _yield(self.api, pair)
+        self.n += 1
+        if self.n > 300:
+            self.api.rec2.emit(dict(ev="WalkEnd", sid=self.sid, exc="DidNotStop", bases=[]))
+            self.done = True
+            return False
+        return True
+
+    async def astep(self):
+        if self.done:
+            return False
+        try:
+            if self.it is None:
+                self.it = self._begin().__aiter__()
+            else:
+                self._resume()
+            pair = await self.it.__anext__()
+        except BaseException as e:  # noqa
+            apidrv.use_sid(self.api, self.sid)
+            if type(e).__name__ == "TimeoutError":
+                apidrv.api_result_event(self.api.rec2, self.sid, self.op, e)
+            _end(self.api, e)
+            self.done = True
+            return False
+        _yield(self.api, pair)
+        self.n += 1
+        if self.n > 300:
+            self.api.rec2.emit(dict(ev="WalkEnd", sid=self.sid, exc="DidNotStop", bases=[]))
+            self.done = True
+            return False
+        return True
+
+
+def multi_walk_plan(kind):
+    """list of (walker index, steps or None=to the end) executed in order; walker 0 walks subtree A, walker 1 subtree B"""
+    if kind == "abandon":              # A is left after two rows, then B is walked completely
+        return [(0, 2), (1, None)]
+    if kind == "nested":               # inside A's loop, after its first row, B is walked completely; then A goes on
+        return [(0, 1), (1, None), (0, None)]
+    if kind == "interleave":           # A and B advanced alternately
+        return [(0, 1), (1, 1)] * 40 + [(0, None), (1, None)]
+    if kind == "abandon-twice":
+        return [(0, 3), (1, 1), (0, None)]
+    raise ValueError(kind)
+
+
+def multi_walk_sync(apis, specs, kind):
+    """apis: one or two SyncApi (the walkers use apis[i % len(apis)]); specs: [(op, base, maxrep, mib, fetch)] x 2"""
+    ws = [_Walker(apis[i % len(apis)], i + 1, *specs[i]) for i in range(2)]
+    for wi, steps in multi_walk_plan(kind):
+        k = 0
+        while (steps is None or k < steps) and ws[wi].step():
+            k += 1
+
+
+async def multi_walk_async(apis, specs, kind):
+    ws = [_Walker(apis[i % len(apis)], i + 1, *specs[i]) for i in range(2)]
+    for wi, steps in multi_walk_plan(kind):
+        k = 0
+        while (steps is None or k < steps) and await ws[wi].astep():
+            k += 1
